@@ -171,77 +171,150 @@ Lemma u16_field t v : try_parse_uint16 t = Some v <-> field t 65535 v.
 Proof. unfold try_parse_uint16, field. apply try_parse_bounded_spec. unfold max16, max64; lia. Qed.
 
 (* ---------- PASV ---------- *)
-Theorem pasv_sound s ip port : try_parse_pasv_reply s = Some (ip, port) ->
-  exists pre inner suf t0 t1 t2 t3 t4 t5 hi lo,
-    parens s pre inner suf /\ split_string inner COMMA = [t0; t1; t2; t3; t4; t5] /\
-    ip = t0 ++ [DOT] ++ t1 ++ [DOT] ++ t2 ++ [DOT] ++ t3 /\
-    field t4 255 hi /\ field t5 255 lo /\ port = hi * 256 + lo.
+Lemma digits_no (c : N) t : is_digit c = false -> all_digits t = true -> mem c t = false.
 Proof.
-  unfold try_parse_pasv_reply, try_parse_pasv_gen, pasv_field.
-  destruct (find_first LPAR s) as [b|] eqn:F; [|discriminate].
-  destruct (find_last RPAR s) as [e|] eqn:L; [|discriminate].
-  destruct (Nat.leb e b) eqn:Hle; [discriminate|].
-  destruct (Nat.leb e (S b)) eqn:Hle1; [discriminate|].
-  destruct (front_some s b e F L Hle) as (pre & inner & suf & P & -> & Li).
-  destruct (split_string inner COMMA) as [|t0 [|t1 [|t2 [|t3 [|t4 [|t5 [|t6 ts]]]]]]] eqn:Sp; try discriminate.
-  destruct (try_parse_uint8 t4) as [hi|] eqn:E4; [|discriminate].
-  destruct (try_parse_uint8 t5) as [lo|] eqn:E5; [|discriminate].
-  intro H; inversion H; subst ip port; clear H.
-  apply u8_field in E4, E5.
-  exists pre, inner, suf, t0, t1, t2, t3, t4, t5, hi, lo.
-  split; [exact P|]. split; [exact Sp|]. split; [reflexivity|]. split; [exact E4|]. split; [exact E5|].
-  apply N.mod_small. destruct E4 as (_ & _ & _ & ?), E5 as (_ & _ & _ & ?). lia.
+  intros Hc. unfold mem, all_digits. induction t as [|x t IH]; cbn [existsb forallb]; intro H; [reflexivity|].
+  apply andb_true_iff in H as (Hx & Ht). rewrite (IH Ht), orb_false_r.
+  destruct (c =? x) eqn:E; [|reflexivity]. apply N.eqb_eq in E; subst. congruence.
 Qed.
 
-Theorem pasv_complete pre suf t0 t1 t2 t3 t4 t5 hi lo :
-  mem LPAR pre = false -> mem RPAR suf = false ->
-  (forall t, In t [t0; t1; t2; t3; t4; t5] -> mem COMMA t = false) ->
-  field t4 255 hi -> field t5 255 lo ->
-  try_parse_pasv_reply (pre ++ LPAR :: join [COMMA] [t0; t1; t2; t3; t4; t5] ++ RPAR :: suf)
-  = Some (t0 ++ [DOT] ++ t1 ++ [DOT] ++ t2 ++ [DOT] ++ t3, hi * 256 + lo).
+Lemma last_app_ne {A} (a b : list A) (x : A) : b <> [] -> last (a ++ b) x = last b x.
 Proof.
-  intros Mp Ms NC F4 F5.
-  set (inner := join [COMMA] [t0; t1; t2; t3; t4; t5]).
-  set (s := pre ++ LPAR :: inner ++ RPAR :: suf).
-  assert (P : parens s pre inner suf) by (repeat split; auto).
-  destruct (front_of_parens s pre inner suf P) as (F & L & Sub).
-  assert (NEi : (0 < length inner)%nat).
-  { unfold inner. cbn [join]. rewrite !app_length. destruct F5 as (N5 & _). destruct t5; [congruence|]. cbn. lia. }
-  unfold try_parse_pasv_reply, try_parse_pasv_gen, pasv_field. rewrite F, L.
-  destruct (Nat.leb_spec (length pre + S (length inner)) (length pre)); [lia|].
-  destruct (Nat.leb_spec (length pre + S (length inner)) (S (length pre))); [lia|].
-  rewrite Sub. unfold inner. rewrite split_join; [|discriminate|exact NC|cbn; apply F5].
-  apply u8_field in F4 as E4. apply u8_field in F5 as E5. rewrite E4, E5.
-  rewrite N.mod_small; [reflexivity|].
-  destruct F4 as (_ & _ & _ & ?), F5 as (_ & _ & _ & ?). lia.
+  intro NE. induction a as [|y a IH]; [reflexivity|].
+  cbn [app]. remember (a ++ b) as l eqn:E. destruct l as [|z l].
+  - destruct a; cbn in E; [congruence|discriminate].
+  - exact IH.
+Qed.
+
+Lemma pieces_last_nonempty d s : s <> [] -> last s 0 <> d -> last (pieces d s) [0] <> [].
+Proof.
+  induction s as [|c s IH]; intros NE L; [congruence|].
+  destruct s as [|c' s'].
+  - cbn in L. cbn. destruct (c =? d) eqn:E; [apply N.eqb_eq in E; congruence|]. cbn. discriminate.
+  - assert (L' : last (c' :: s') 0 <> d) by exact L.
+    specialize (IH ltac:(discriminate) L').
+    remember (c' :: s') as r eqn:R.
+    cbn [pieces]. destruct (pieces d r) as [|p ps] eqn:P; [exfalso; eapply pieces_nonempty; eauto|].
+    destruct (c =? d).
+    + exact IH.
+    + destruct ps as [|q ps]; [cbn; discriminate|exact IH].
+Qed.
+
+Lemma field_last_digit t b v : field t b v -> last t 0 <> COMMA.
+Proof.
+  intros (NE & AD & _). induction t as [|c t IH]; [congruence|].
+  cbn [all_digits forallb] in AD. apply andb_true_iff in AD as (Dc & Dt).
+  destruct t as [|c' t'].
+  - cbn. intro E. subst c. vm_compute in Dc. discriminate.
+  - apply IH; [discriminate|exact Dt].
+Qed.
+
+Lemma field_nocomma t b v : field t b v -> mem COMMA t = false.
+Proof. intros (_ & AD & _). apply digits_no; [reflexivity|exact AD]. Qed.
+
+(* the 227 parser accepts exactly: "(" six 8-bit decimal fields separated by commas ")" - first "(" to last ")" -
+   and returns the address rebuilt from the four numbers and the port hi * 256 + lo *)
+Theorem pasv_iff s ip port : try_parse_pasv_reply s = Some (ip, port) <->
+  exists pre suf t0 t1 t2 t3 t4 t5 a b c d hi lo,
+    parens s pre (join [COMMA] [t0; t1; t2; t3; t4; t5]) suf /\
+    field t0 255 a /\ field t1 255 b /\ field t2 255 c /\ field t3 255 d /\ field t4 255 hi /\ field t5 255 lo /\
+    ip = dotted a b c d /\ port = hi * 256 + lo.
+Proof.
+  split.
+  - unfold try_parse_pasv_reply.
+    destruct (find_first LPAR s) as [b|] eqn:F; [|discriminate].
+    destruct (find_last RPAR s) as [e|] eqn:L; [|discriminate].
+    destruct (Nat.leb e b) eqn:Hle; [discriminate|].
+    destruct (Nat.leb e (S b)) eqn:Hle1; [discriminate|].
+    destruct (front_some s b e F L Hle) as (pre & inner & suf & P & -> & Li).
+    destruct (split_string inner COMMA) as [|t0 [|t1 [|t2 [|t3 [|t4 [|t5 [|t6 ts]]]]]]] eqn:Sp; try discriminate.
+    destruct (last inner 0 =? COMMA) eqn:LC; [discriminate|].
+    destruct (try_parse_uint8 t0) as [h0|] eqn:E0; [|discriminate].
+    destruct (try_parse_uint8 t1) as [h1|] eqn:E1; [|discriminate].
+    destruct (try_parse_uint8 t2) as [h2|] eqn:E2; [|discriminate].
+    destruct (try_parse_uint8 t3) as [h3|] eqn:E3; [|discriminate].
+    destruct (try_parse_uint8 t4) as [hi|] eqn:E4; [|discriminate].
+    destruct (try_parse_uint8 t5) as [lo|] eqn:E5; [|discriminate].
+    intro H; inversion H; subst ip port; clear H.
+    apply u8_field in E0, E1, E2, E3, E4, E5.
+    apply N.eqb_neq in LC.
+    assert (NEi : inner <> []).
+    { intro X. subst inner. apply Nat.leb_gt in Hle1. cbn in Li. lia. }
+    assert (J : join [COMMA] [t0; t1; t2; t3; t4; t5] = inner).
+    { rewrite <- Sp, split_string_spec, drop_last_empty_id by (apply pieces_last_nonempty; assumption).
+      apply join_pieces. }
+    exists pre, suf, t0, t1, t2, t3, t4, t5, h0, h1, h2, h3, hi, lo.
+    rewrite J. repeat (split; [assumption|]). split; [reflexivity|].
+    apply N.mod_small. destruct E4 as (_ & _ & _ & ?), E5 as (_ & _ & _ & ?). lia.
+  - intros (pre & suf & t0 & t1 & t2 & t3 & t4 & t5 & a & b & c & d & hi & lo & P & F0 & F1 & F2 & F3 & F4 & F5 & -> & ->).
+    set (inner := join [COMMA] [t0; t1; t2; t3; t4; t5]) in *.
+    destruct (front_of_parens s pre inner suf P) as (F & L & Sub).
+    assert (NEi : (0 < length inner)%nat).
+    { unfold inner. cbn [join]. rewrite !app_length. destruct F5 as (N5 & _). destruct t5; [congruence|]. cbn. lia. }
+    unfold try_parse_pasv_reply. rewrite F, L.
+    destruct (Nat.leb_spec (length pre + S (length inner)) (length pre)); [lia|].
+    destruct (Nat.leb_spec (length pre + S (length inner)) (S (length pre))); [lia|].
+    rewrite Sub. unfold inner at 1. rewrite split_join; [|discriminate| |cbn; apply F5].
+    2:{ intros t [<-|[<-|[<-|[<-|[<-|[<-|[]]]]]]]; eapply field_nocomma; eauto. }
+    assert (LC : (last inner 0 =? COMMA) = false).
+    { apply N.eqb_neq. unfold inner. cbn [join].
+      rewrite !app_assoc. rewrite last_app_ne by (destruct F5 as (N5 & _); exact N5).
+      eapply field_last_digit; eauto. }
+    rewrite LC.
+    apply u8_field in F0 as ->. apply u8_field in F1 as ->. apply u8_field in F2 as ->. apply u8_field in F3 as ->.
+    apply u8_field in F4 as E4. apply u8_field in F5 as E5. rewrite E4, E5.
+    rewrite N.mod_small; [reflexivity|].
+    apply u8_field in E4 as (_ & _ & _ & ?). apply u8_field in E5 as (_ & _ & _ & ?). lia.
+Qed.
+
+(* the two halves in the shape used elsewhere *)
+Theorem pasv_sound s ip port : try_parse_pasv_reply s = Some (ip, port) ->
+  exists pre suf t0 t1 t2 t3 t4 t5 a b c d hi lo,
+    parens s pre (join [COMMA] [t0; t1; t2; t3; t4; t5]) suf /\
+    field t0 255 a /\ field t1 255 b /\ field t2 255 c /\ field t3 255 d /\ field t4 255 hi /\ field t5 255 lo /\
+    ip = dotted a b c d /\ port = hi * 256 + lo.
+Proof. apply pasv_iff. Qed.
+
+Theorem pasv_complete pre suf t0 t1 t2 t3 t4 t5 a b c d hi lo :
+  mem LPAR pre = false -> mem RPAR suf = false ->
+  field t0 255 a -> field t1 255 b -> field t2 255 c -> field t3 255 d -> field t4 255 hi -> field t5 255 lo ->
+  try_parse_pasv_reply (pre ++ LPAR :: join [COMMA] [t0; t1; t2; t3; t4; t5] ++ RPAR :: suf)
+  = Some (dotted a b c d, hi * 256 + lo).
+Proof.
+  intros Mp Ms F0 F1 F2 F3 F4 F5. apply pasv_iff.
+  exists pre, suf, t0, t1, t2, t3, t4, t5, a, b, c, d, hi, lo. split; [repeat split; auto|]. repeat (split; [assumption|]). auto.
 Qed.
 
 (* rejections: never a wrapped or guessed value *)
 Theorem pasv_rejects_no_lpar s : mem LPAR s = false -> try_parse_pasv_reply s = None.
 Proof.
   intro H. destruct (try_parse_pasv_reply s) as [[ip p]|] eqn:E; [|reflexivity].
-  apply pasv_sound in E as (pre & inner & suf & ? & ? & ? & ? & ? & ? & ? & ? & (-> & _) & _).
+  apply pasv_sound in E as (pre & suf & ? & ? & ? & ? & ? & ? & ? & ? & ? & ? & ? & ? & (-> & _) & _).
   rewrite mem_app in H. cbn in H. rewrite orb_true_r in H. discriminate.
 Qed.
 
 Theorem pasv_rejects_no_rpar s : mem RPAR s = false -> try_parse_pasv_reply s = None.
 Proof.
   intro H. destruct (try_parse_pasv_reply s) as [[ip p]|] eqn:E; [|reflexivity].
-  apply pasv_sound in E as (pre & inner & suf & ? & ? & ? & ? & ? & ? & ? & ? & (-> & _) & _).
+  apply pasv_sound in E as (pre & suf & t0 & t1 & t2 & t3 & t4 & t5 & ? & ? & ? & ? & ? & ? & (-> & _) & _).
+  set (inner := join [COMMA] [t0; t1; t2; t3; t4; t5]) in *.
   rewrite mem_app in H. cbn [mem existsb] in H. fold (mem RPAR (inner ++ RPAR :: suf)) in H.
   rewrite mem_app in H. cbn in H. rewrite !orb_true_r in H. discriminate.
 Qed.
 
+(* the text between the first "(" and the last ")" is split at EVERY comma ([pieces]: nothing dropped): anything but
+   exactly six pieces, or a piece that is not an 8-bit decimal number, is refused *)
 Theorem pasv_rejects_fields s pre inner suf : parens s pre inner suf ->
-  (length (split_string inner COMMA) <> 6%nat \/
-   (forall v, ~ field (nth 4 (split_string inner COMMA) []) 255 v) \/
-   (forall v, ~ field (nth 5 (split_string inner COMMA) []) 255 v)) ->
+  (length (pieces COMMA inner) <> 6%nat \/
+   (exists k, (k < 6)%nat /\ forall v, ~ field (nth k (pieces COMMA inner) []) 255 v)) ->
   try_parse_pasv_reply s = None.
 Proof.
   intros P H. destruct (try_parse_pasv_reply s) as [[ip p]|] eqn:E; [|reflexivity].
-  apply pasv_sound in E as (pre' & inner' & suf' & t0 & t1 & t2 & t3 & t4 & t5 & hi & lo & P' & Sp & _ & F4 & F5 & _).
-  destruct (parens_unique _ _ _ _ _ _ _ P P') as (_ & <- & _).
-  rewrite Sp in H. cbn in H. exfalso. destruct H as [H|[H|H]]; [congruence|eapply H; eauto|eapply H; eauto].
+  apply pasv_sound in E as (pre' & suf' & t0 & t1 & t2 & t3 & t4 & t5 & a & b & c & d & hi & lo & P' & F0 & F1 & F2 & F3 & F4 & F5 & _).
+  destruct (parens_unique _ _ _ _ _ _ _ P P') as (_ & -> & _).
+  rewrite pieces_join in H; [|discriminate|intros t [<-|[<-|[<-|[<-|[<-|[<-|[]]]]]]]; eapply field_nocomma; eauto].
+  exfalso. destruct H as [H|(k & Hk & H)]; [cbn in H; congruence|].
+  destruct k as [|[|[|[|[|[|k]]]]]]; cbn in H; try lia; eapply H; eauto.
 Qed.
 
 (* ---------- EPSV ---------- *)
@@ -287,6 +360,20 @@ Proof.
   (* "(127,0,0,1,256,0)" *)
   exists [40; 49;50;55;44; 48;44; 48;44; 49;44; 50;53;54;44; 48; 41], [49;50;55;46;48;46;48;46;49].
   split; vm_compute; reflexivity.
+Qed.
+
+(* the pinned code took "h1,h2,h3,h4,p1,p2," for six fields and never looked at h1..h4 *)
+Theorem pasv_trailing_comma_refuted_on_pinned :
+  exists s r, try_parse_pasv_reply_pinned s = Some r /\ try_parse_pasv_reply s = None.
+Proof.
+  (* "(1,2,3,4,5,6,)" *)
+  exists [40; 49;44; 50;44; 51;44; 52;44; 53;44; 54;44; 41]. eexists. split; vm_compute; reflexivity.
+Qed.
+Theorem pasv_host_not_numeric_refuted_on_pinned :
+  exists s r, try_parse_pasv_reply_pinned s = Some r /\ try_parse_pasv_reply s = None.
+Proof.
+  (* "(::1,0,0,1,4,5)": the pinned code built the text "::1.0.0.1", which boost::asio::ip::make_address takes for an IPv6 address *)
+  exists [40; 58;58;49;44; 48;44; 48;44; 49;44; 52;44; 53; 41]. eexists. split; vm_compute; reflexivity.
 Qed.
 
 Theorem epsv_delims_refuted_on_pinned :
@@ -337,12 +424,7 @@ Proof.
   rewrite E, app_nil_r. auto.
 Qed.
 
-Lemma digits_no (c : N) t : is_digit c = false -> all_digits t = true -> mem c t = false.
-Proof.
-  intros Hc. unfold mem, all_digits. induction t as [|x t IH]; cbn [existsb forallb]; intro H; [reflexivity|].
-  apply andb_true_iff in H as (Hx & Ht). rewrite (IH Ht), orb_false_r.
-  destruct (c =? x) eqn:E; [|reflexivity]. apply N.eqb_eq in E; subst. congruence.
-Qed.
+
 
 Lemma dots_to_commas_digits t : all_digits t = true -> dots_to_commas t = t.
 Proof.
@@ -383,10 +465,13 @@ Proof.
     replace x with (join [COMMA] [to_string a; to_string b; to_string c; to_string d;
                                   to_string (p / 256); to_string (p mod 256)])
       by (cbn [join]; rewrite <- !app_assoc; reflexivity) end.
-  rewrite (pasv_complete pre suf _ _ _ _ _ _ (p / 256) (p mod 256)); try assumption.
+  rewrite (pasv_complete pre suf _ _ _ _ _ _ a b c d (p / 256) (p mod 256)); try assumption.
   - f_equal. f_equal. pose proof (N.div_mod p 256 ltac:(lia)) as DM.
     set (q := p / 256) in *. set (m := p mod 256) in *. clearbody q m. clear - DM. lia.
-  - intros t [<-|[<-|[<-|[<-|[<-|[<-|[]]]]]]]; apply digits_no; auto.
+  - repeat split; auto. clear - Ha. lia.
+  - repeat split; auto. clear - Hb. lia.
+  - repeat split; auto. clear - Hc. lia.
+  - repeat split; auto. clear - Hd. lia.
   - repeat split; auto. clear - Hhi. lia.
   - repeat split; auto. clear - Hlo. lia.
 Qed.
